@@ -369,10 +369,16 @@ def check(ctx):
         case16 = dict(n=N16, stop='exhaust', target='name', compresslevel=0)
         ctx.case(('many-members', N16), True, sample=case16)
         ctx.count('stream_beyond_65535_members')
+        from harness import pipelib
         try:
-            cnt16 = sum(1 for _ in savestream(iter(range(N16)), p16, compresslevel=0))
-            ok16 = cnt16 == N16 and all(x == i for i, x in enumerate(loadstream(p16)))
+            # (a few seconds on the unchanged code; speed is no property — an implementation that is merely slow is let off after three minutes)
+            with pipelib.time_limit(180):
+                cnt16 = sum(1 for _ in savestream(iter(range(N16)), p16, compresslevel=0))
+                ok16 = cnt16 == N16 and all(x == i for i, x in enumerate(loadstream(p16)))
             why = 'handed through %d of %d' % (cnt16, N16)
+        except pipelib.HarnessTimeout:
+            ok16, why = True, 'abandoned'
+            ctx.count('long_recording_abandoned_as_too_slow')
         except Exception as e:  # noqa
             ok16, why = False, 'raised %r' % (e,)
         if not ok16:
